@@ -40,19 +40,21 @@ Record arith := mkArith {
   a_ulps : num -> num -> bool       (* approx::Ulps::default().eq(&a, &b) *)
 }.
 
-(* approx 0.5.1, impl_ulps_eq!(f64, u64) with the defaults epsilon = f64::EPSILON,
-   max_ulps = 4:
-     if (a - b).abs() <= EPSILON { return true }
+(* approx 0.5.1, impl_ulps_eq!(f64, u64), `Ulps::default().epsilon(eps).eq(&a, &b)`
+   (max_ulps = 4):
+     if (a - b).abs() <= eps { return true }
      if a.signum() != b.signum() { return false }        // NaN.signum() = NaN != NaN
-     |a.to_bits() - b.to_bits()| <= 4                                            *)
+     |a.to_bits() - b.to_bits()| <= 4
+   Since 70b7d46 the code passes eps = 0.0 (equal values only, then ULPs); before
+   it used the default eps = f64::EPSILON = 2^-52, an ABSOLUTE tolerance. *)
 Definition f64_epsilon : spec_float := f64_of_bits 4372995238176751616%N.   (* 2^-52 *)
 Definition sign_of (x : spec_float) : option bool :=
   match x with
   | S754_zero s | S754_infinity s | S754_finite s _ _ => Some s
   | S754_nan => None
   end.
-Definition f64_ulps_eq (a b : spec_float) : bool :=
-  if fle (fabs (f64_sub a b)) f64_epsilon then true
+Definition f64_ulps_eq (eps a b : spec_float) : bool :=
+  if fle (fabs (f64_sub a b)) eps then true
   else match sign_of a, sign_of b with
        | Some sa, Some sb =>
            if Bool.eqb sa sb
@@ -61,9 +63,13 @@ Definition f64_ulps_eq (a b : spec_float) : bool :=
        | _, _ => false
        end.
 
-Definition F64 : arith :=
+Definition F64eps (eps : spec_float) : arith :=
   {| num := spec_float; a_zero := f64_of_Z 0; a_add := f64_add; a_mul := f64_mul; a_div := f64_div;
-     a_ofN := fun n => f64_of_Z (Z.of_N n); a_lt := flt; a_ulps := f64_ulps_eq |}.
+     a_ofN := fun n => f64_of_Z (Z.of_N n); a_lt := flt; a_ulps := f64_ulps_eq eps |}.
+(* the code as it is: epsilon(0.0) *)
+Definition F64 : arith := F64eps (f64_of_Z 0).
+(* the comparison before 70b7d46 (regression witness C11_balance_f64_refuted_tiny) *)
+Definition F64_default_epsilon : arith := F64eps f64_epsilon.
 
 (* exact arithmetic: what the code computes when no operation rounds *)
 Definition QA : arith :=
